@@ -117,7 +117,25 @@ func (in *Interp) newDocBytes(payload Value) SliceV {
 	return SliceV{arr: arr, n: 1, cp: 1, symLen: ln}
 }
 
+// unwrapReader: a struct value whose only field is an embedded *bytes.Reader (a body with Close)
+func unwrapReader(r Value) Value {
+	iv, ok := r.(IfaceV)
+	if !ok || iv.t == nil {
+		return r
+	}
+	st, ok := iv.t.Underlying().(*types.Struct)
+	if !ok || st.NumFields() != 1 || !st.Field(0).Embedded() {
+		return r
+	}
+	sv, ok := iv.v.(StructV)
+	if !ok {
+		return r
+	}
+	return IfaceV{t: st.Field(0).Type(), v: sv.f[0]}
+}
+
 func (in *Interp) isBytesReader(r Value) bool {
+	r = unwrapReader(r)
 	iv, ok := r.(IfaceV)
 	if !ok || iv.t == nil {
 		return false
@@ -131,6 +149,7 @@ func (in *Interp) isBytesReader(r Value) bool {
 }
 
 func (in *Interp) readerBytes(r Value) SliceV {
+	r = unwrapReader(r)
 	iv, ok := r.(IfaceV)
 	if !ok || iv.t == nil {
 		in.abort("unsupported", "decoder over nil reader")
@@ -349,6 +368,17 @@ func (in *Interp) installLibStubs() {
 		return nilErr
 	}
 	S["(*"+mp+".Decoder).SetCustomStructTag"] = func(in *Interp, fn *ssa.Function, a []Value) Value { return nil }
+	S["encoding/json.NewEncoder"] = func(in *Interp, fn *ssa.Function, a []Value) Value {
+		return PtrV{loc: &Loc{v: BVu(8, 0)}}
+	}
+	S["(*encoding/json.Encoder).Encode"] = func(in *Interp, fn *ssa.Function, a []Value) Value { return IfaceV{} } // response bodies are not modelled
+	S["github.com/google/uuid.New"] = func(in *Interp, fn *ssa.Function, a []Value) Value {
+		e := make([]Value, 16)
+		for i := range e {
+			e[i] = in.fresh(8, "uuidnew")
+		}
+		return ArrayV{e: e}
+	}
 	S["encoding/json.NewDecoder"] = func(in *Interp, fn *ssa.Function, a []Value) Value {
 		return PtrV{loc: &Loc{v: BVu(8, 0)}}
 	}
